@@ -214,7 +214,8 @@ def s_terms(draw, n, max_terms=5, max_loc=4, pools=("all", "all", "pauli", "ferm
             complex_ok=True):
     pool = POOLS[draw(st.sampled_from(list(pools)))]
     if repeat is None:
-        repeat = draw(st.sampled_from([False, True, True]))
+        # (repeated sites in 2 of 5 cases: on the unrepaired tree most of them hit known defect C19-a)
+        repeat = draw(st.sampled_from([False, False, False, True, True]))
     terms = []
     for _ in range(draw(st.integers(1, max_terms))):
         k = draw(st.integers(1, max_loc if repeat else min(max_loc, n)))
@@ -779,7 +780,7 @@ def run_terms_final(case):
 def s_rewrite_fns(draw, tier):
     n = draw(st.integers(1, 5))
     return {"n": n, "terms": draw(s_terms(n)), "fn": draw(st.sampled_from(["jw", "simplify", "pauli", "pauli_zx", "chain"])),
-            "maps": draw(st.booleans()), "perm": list(draw(st.permutations(list(range(n)))))}
+            "maps": draw(st.sampled_from([True, True, False])), "perm": list(draw(st.permutations(list(range(n)))))}
 
 
 def run_rewrite_fns(case):
@@ -1726,21 +1727,21 @@ def run_spinham(case):
 
 
 SUBCHECKS = [
-    SubCheck("dense", run_dense, s_dense, examples=(150, 3000), shards=(1, 4),
+    SubCheck("dense", run_dense, s_dense, examples=(300, 3000), shards=(2, 6),
              rule="build_dense (dtype auto/explicit incl. single precision, parallel) == H_ref; nt as RULE"),
-    SubCheck("sparse", run_sparse, s_sparse, examples=(150, 3000), shards=(1, 4),
+    SubCheck("sparse", run_sparse, s_sparse, examples=(300, 3000), shards=(1, 4),
              rule="build_sparse_matrix in 7 formats == H_ref and has the requested format; nt as RULE"),
-    SubCheck("matvec", run_matvec, s_matvec, examples=(150, 3000), shards=(1, 4),
+    SubCheck("matvec", run_matvec, s_matvec, examples=(300, 3000), shards=(2, 6),
              rule="matvec (out=, dtype=, parallel) and aslinearoperator @/matvec/matmat == H_ref @ x; nt as RULE"),
-    SubCheck("mpo", run_mpo, s_mpo, examples=(150, 3000), shards=(1, 4), needs_deps=True,
+    SubCheck("mpo", run_mpo, s_mpo, examples=(300, 3000), shards=(2, 6), needs_deps=True,
              rule="build_mpo().to_dense() == H_ref; nt as RULE"),
-    SubCheck("local_terms", run_local, s_local, examples=(150, 3000), shards=(1, 4),
+    SubCheck("local_terms", run_local, s_local, examples=(300, 3000), shards=(1, 4),
              rule="build_local_terms / build_local_ham re-embedded and summed == H_ref; nt as RULE"),
-    SubCheck("ikron", run_ikron, s_ikron, examples=(120, 2500), shards=(1, 4),
+    SubCheck("ikron", run_ikron, s_ikron, examples=(250, 2500), shards=(1, 4),
              rule="build_matrix_ikron dense/sparse == H_ref; nt as RULE"),
-    SubCheck("coupling", run_coupling, s_coupling, examples=(120, 2500), shards=(1, 4),
+    SubCheck("coupling", run_coupling, s_coupling, examples=(250, 2500), shards=(1, 4),
              rule="flatconfig_coupling / config_coupling of (all or 16 sampled) basis configurations == columns of H_ref; nt as RULE"),
-    SubCheck("terms_final", run_terms_final, s_terms_final, examples=(150, 3000), shards=(1, 4),
+    SubCheck("terms_final", run_terms_final, s_terms_final, examples=(400, 4000), shards=(1, 4),
              rule="the simplified / Jordan-Wigner / Pauli-decomposed term list (.terms) evaluates to H_ref and is canonical; nt as RULE"),
     SubCheck("sector", run_sector, s_sector, examples=(250, 4000), shards=(2, 6),
              rule="Z2/U1/U1U1 sectors (default or per call, every sector spelling, species blocked or interleaved): dense/sparse/matvec/linop == H_ref[idx][:, idx], size, enumeration; nt: proper sector of dimension >= 2"),
@@ -1750,14 +1751,14 @@ SUBCHECKS = [
              rule="configcore.rank_to_flatconfig(r, sector, symmetry) over the same exhaustive grid"),
     SubCheck("rank_kernels", run_rank_kernels, enum=enum_rank, exhaustive=True, shards=(1, 2),
              rule="configcore.flatconfig_to_rank / rank_to_flatconfig dispatchers over the same exhaustive grid"),
-    SubCheck("rank_labelled", run_rank_labelled, s_rank_labelled, examples=(200, 3000), shards=(1, 4),
+    SubCheck("rank_labelled", run_rank_labelled, s_rank_labelled, examples=(500, 4000), shards=(1, 4),
              rule="rank<->config for 6 labellings x 7 orderings x species (blocked/interleaved) x sector spellings x mixed local dimensions, all ranks; nt: size>=2 and (non-identity ordering or a symmetry)"),
-    SubCheck("models", run_models, s_models, examples=(200, 3000), shards=(1, 4),
+    SubCheck("models", run_models, s_models, examples=(400, 4000), shards=(1, 4),
              rule="heisenberg_from_edges / fermi_hubbard_from_edges / fermi_hubbard_spinless_from_edges on random graphs (scalar, per-spin, per-edge parameters; orderings; sectors; Pauli decomposition) == documented formula with textbook Jordan-Wigner; all nt"),
-    SubCheck("spin_models", run_spin_models, s_spin_models, examples=(200, 3000), shards=(1, 4),
+    SubCheck("spin_models", run_spin_models, s_spin_models, examples=(350, 4000), shards=(1, 4),
              rule="MPO_ham_* / ham_1d_* / ham_* (heis, ising, XY, XXZ, mbl, j1j2; open/cyclic; S=1/2 and 1) == documented formula with textbook spin matrices (mbl: builders agree for one seed, noise is bounded on-site fields); nt: L>=3"),
-    SubCheck("spinham_custom", run_spinham, s_spinham, examples=(200, 3000), shards=(1, 4),
+    SubCheck("spinham_custom", run_spinham, s_spinham, examples=(350, 4000), shards=(1, 4),
              rule="SpinHam1D with default and site/bond specific terms (strings and arrays, complex factors): build_mpo / build_sparse / build_local_ham == sum of embedded terms; nt: specific terms or cyclic or >1 coupling"),
-    SubCheck("rewrite_fns", run_rewrite_fns, s_rewrite_fns, examples=(150, 3000), shards=(1, 4),
+    SubCheck("rewrite_fns", run_rewrite_fns, s_rewrite_fns, examples=(400, 4000), shards=(1, 4),
              rule="module-level jordan_wigner_transform / simplify / pauli_decompose on integer sites, with default and explicit register maps; nt: repeated site or JW"),
 ]
